@@ -98,6 +98,59 @@ def _check(args) -> dict:
 	return {'failures': failures, 'machinery': machinery, 'refused': refused}
 
 
+def _check_refs(args) -> dict:
+	"""references to other enum members: three enums, same member names in two of them, one shared evaluator, two evaluation orders"""
+	cases, enums = args
+	import rogw.tranp.syntax.node.definition as defs
+	from harness.tranp_env import Env, enter_scratch
+	from rogw.tranp.errors import Errors
+	from rogw.tranp.transpiler.types import Evaluator
+	enter_scratch('verif-c17r-')
+	failures, machinery = [], []
+	program = 'from enum import Enum\n\n' + ''.join(f'class {en}(Enum):\n' + ''.join(f'\t{x} = {enums[en][x]["text"]}\n' for x in sorted(enums[en])) + '\n' for en in sorted(enums))
+	program += 'class E2(Enum):\n' + ''.join(f'\tM{i} = {c["text"]}\n' for i, c in enumerate(cases))
+	scope: dict = {}
+	exec(program, scope)
+	for i, c in enumerate(cases):
+		ref = eval(c['text'], scope)      # not E2[...].value: members with equal values are aliases of one another
+		ref = ('float', Fraction(ref)) if isinstance(ref, float) else ('int', ref) if isinstance(ref, int) else ('str', ref)
+		if ref != model_value(c['val']):
+			machinery.append(f'spec and CPython disagree on {c["text"]!r}: {model_value(c["val"])} vs {ref}')
+	if machinery:
+		return {'failures': [], 'machinery': machinery, 'refused': 0}
+	refused = 0
+	for order in ('forward', 'backward'):
+		try:
+			env = Env()
+			module = env.reload_main(program)
+			e2 = [n for n in module.entrypoint.statements if isinstance(n, defs.Enum)][-1]
+			assigns = [s for s in e2.statements if isinstance(s, defs.MoveAssign)]
+			evaluator = env.get(Evaluator)
+		except Exception as e:
+			return {'failures': [{'clause': 'accepted', 'detail': f'{type(e).__name__}: {str(e)[:200]}', 'text': cases[0]['text'], 'kind': 'references'}], 'machinery': [], 'refused': 0}
+		pairs = list(zip(cases, assigns))
+		for case, assign in (pairs if order == 'forward' else reversed(pairs)):
+			want = model_value(case['val'])
+			try:
+				raw = evaluator.exec(assign.value)
+			except Errors.Error:
+				refused += 1
+				continue
+			except Exception as e:
+				failures.append({'clause': 'RefusalIsAppError', 'detail': f'{case["text"]}: {type(e).__name__} escaped', 'text': case['text'], 'kind': f'references:{type(e).__name__}'})
+				continue
+			if isinstance(raw, str):
+				try:
+					got = ('str', ast.literal_eval(raw))
+				except Exception:
+					got = ('str-raw', raw)
+			else:
+				got = ('float', Fraction(raw)) if isinstance(raw, float) else ('int', raw) if isinstance(raw, int) and not isinstance(raw, bool) else ('other', repr(raw))
+			if got != want:
+				failures.append({'clause': 'ValueEqualsPython', 'detail': f'{case["text"]} (members evaluated {order} on one evaluator) folds to {got[0]} {got[1]}, Python gives {want[0]} {want[1]}', 'text': case['text'], 'kind': 'references'})
+	return {'failures': failures, 'machinery': machinery, 'refused': refused}
+
+
 def _kind(text: str, want) -> str:
 	feats = []
 	if '~' in text:
@@ -119,9 +172,12 @@ def run(ctx: Ctx) -> int:
 	if res.rc != 0:
 		raise Machinery(f'ConstFold: evaluation error: {res.out[-800:]}')
 	cases = [json.loads(line) for line in res.lines('CASE ')]
-	ctx.log(f'TLC enumerated {len(cases)} constant expressions with their Python values (InRange holds)')
+	refcases = [json.loads(line) for line in res.lines('REFCASE ')]
+	enums = json.loads(res.lines('ENUMS ')[0])
+	ctx.log(f'TLC enumerated {len(cases)} constant expressions with their Python values (InRange holds) and {len(refcases)} expressions over references to members of other enums (TableConsistent holds)')
 	with ProcessPoolExecutor(max_workers=16) as ex:
 		results = list(ex.map(_check, [(cases[i:i + BATCH], i) for i in range(0, len(cases), BATCH)]))
+		results += list(ex.map(_check_refs, [(refcases[i::4], enums) for i in range(4)]))
 	machinery = [m for r in results for m in r['machinery']]
 	if machinery:
 		raise Machinery(f'{len(machinery)} cases where spec and CPython disagree, e.g. {machinery[0]}')
@@ -140,6 +196,7 @@ def run(ctx: Ctx) -> int:
 		'transitions': len(cases),
 		'traces_validated_against_impl': len(cases),
 		'expressions': len(cases),
+		'reference_expressions': len(refcases),
 		'refused_by_tranp': refused,
 		'expected_python_errors': sum(1 for c in cases if c['val']['t'] == 'err'),
 		'exhaustive': True,
